@@ -104,3 +104,16 @@ package server
 //@   requires [stored-certificates-encodable] forall h hotstuff.Hash :: {impl.srv.blockchain.blocks[h]} has(impl.srv.blockchain.blocks, h) ==> hotstuffpb.encodable(impl.srv.blockchain.blocks[h].cert.signature)
 //@   ensures [found-or-error] (result0 != nil) == (result1 == nil)
 //@   modifies alloc
+
+// ExecCommand (C06: "a client gets a success outcome only after that replica executed the
+// command"): the handler itself never decides an outcome. On every path it registers the
+// waiting client (ghost trace `reg`, at the update of awaitingCmds) and hands the command to
+// the command cache (ghost trace `enq`); the outcome it returns is whatever completeCommand
+// later delivers on the registered channel (Exec / Abort contracts).
+//@ func (*ClientIO).ExecCommand property C06
+//@   requires cmd != nil && srv.awaitingCmds != nil && srv.cmdCache != nil && clientpb.cnonnil(srv.cmdCache.cache) && clientpb.cuniq(srv.cmdCache.cache)
+//@   ghost at mapupdate awaitingCmds :: emit reg(op0.ClientID, op0.SequenceNumber)
+//@   ghost at call Add :: emit enq(op1.ClientID, op1.SequenceNumber)
+//@   ensures [always-registers-the-waiter] tracelen(reg) == old(tracelen(reg)) + 1 && traceat(reg, 0, old(tracelen(reg))) == cmd.ClientID && traceat(reg, 1, old(tracelen(reg))) == cmd.SequenceNumber
+//@   ensures [always-hands-the-command-on] tracelen(enq) == old(tracelen(enq)) + 1 && traceat(enq, 0, old(tracelen(enq))) == cmd.ClientID && traceat(enq, 1, old(tracelen(enq))) == cmd.SequenceNumber
+//@   opt noframe true
